@@ -587,6 +587,20 @@ def cases(spec, ctx):
         how = rng.choice(["none", "none", "one", "several", "false-only"]) if nfe > 1 else rng.choice(["none", "one"])
         yield _fcoll_case(rng, lens, _strands(rng, nfe, rng.random() < 0.35, "+-." if rng.random() < 0.2 else "+-"), _rand_types(rng, nfe), how,
                           rng.choice(MODES), "rand")
+    # ---- (b2) scale: genes with 12..60 isoforms and feature collections with 12..60 features (own stream) -------------
+    srng = random.Random(f"C20-scale:{ctx.seed}:{i}")
+    for k in range(sc["RG"] // (40 * n) + 1):
+        nn = srng.choice([12, 25, 60])
+        style = srng.choice(["free", "tie"])
+        if style == "tie":
+            c = srng.randint(1, 12)
+            pairs = [(c if srng.random() < 0.7 else srng.randint(0, c), srng.randint(c, c + 12)) for _ in range(nn)]
+        else:
+            pairs = [((srng.randint(1, sl) if srng.random() < 0.6 else 0), sl) for sl in (srng.randint(1, 28) for _ in range(nn))]
+        how = srng.choice(["none", "none", "one", "false-only"])
+        yield _gene_case(srng, pairs, _strands(srng, nn, False), how, srng.choice(MODES), "rand-many-children")
+        lens = [srng.randint(1, 20) for _ in range(nn)]
+        yield _fcoll_case(srng, lens, _strands(srng, nn, False), _rand_types(srng, nn), srng.choice(["none", "one"]), srng.choice(MODES), "rand-many-children")
     # ---- (e) families sharing bounds / CDS bounds with different internal structure, every list order ---------------
     for k in range(sc["FAM"] // n + 1):
         yield from _family_gene_cases(rng)
